@@ -36,7 +36,10 @@ class ScriptAttrError(AttributeError):
 
 
 DEFAULT_STEP = {"es": [], "out": ["r", "true"]}
-RET = {"none": None, "false": False, "true": True}
+RET = {"none": None, "false": False, "true": True,
+       # values that are neither None nor a bool: the flag becomes the value itself (the model sees its truthiness)
+       "int": 3, "str": "finished", "frac": 0.5, "zero": 0}
+RET_MODEL = {"none": "RNone", "false": "RFalse", "true": "RTrue", "int": "RTrue", "str": "RTrue", "frac": "RTrue", "zero": "RFalse"}
 
 
 class Ctx:
@@ -342,12 +345,16 @@ def run_prog(prog):
                     # recur(deeds=...) / exit(deeds=...) must work on, leaving .deeds alone
                     own = doist.enter(doers=handed)
                     ctx.live.add(0)
-                    for _ in range(m["recurs"]):
+                    for r_ in range(m["recurs"]):
                         doist.recur(deeds=own)
+                        if m.get("jump") and m["jump"]["after"] == r_:
+                            doist.tick(tock=m["jump"]["tock"])     # a one-off jump of virtual time between cycles
                 else:
                     doist.enter()
-                    for _ in range(m["recurs"]):
+                    for r_ in range(m["recurs"]):
                         doist.recur()
+                        if m.get("jump") and m["jump"]["after"] == r_:
+                            doist.tick(tock=m["jump"]["tock"])
             except BaseException:
                 if not m.get("own_deeds"):
                     doist.exit()
@@ -437,6 +444,8 @@ def run_prog(prog):
         "efflog": ctx.efflog,
         "skew": [list(x) for x in ctx.skew],
         "caller_doers_changed": list(handed) != handed_copy,
+        "tock_end": float(doist.tock).hex(),
+        "dones_raw": [[i, repr(getattr(ctx.objs[i], "done", None))] for i in ids],
     }
 
 
@@ -463,7 +472,7 @@ def _out(o):
     if o[0] == "y":
         return f"(OYield {coq_option(o[1], _fl, 'float')})"
     if o[0] == "r":
-        return "(OReturn %s)" % {"none": "RNone", "false": "RFalse", "true": "RTrue"}[o[1]]
+        return "(OReturn %s)" % RET_MODEL[o[1]]
     return "ORaise" if o[0] == "x" else "OKbd"
 
 
@@ -495,7 +504,7 @@ def outside_model(prog):
     clean/cease/abort/exit context itself raises."""
     return (any(d.get("hookraise") for d in prog["defs"].values()) or bool(prog.get("enter_effects")) or bool(prog.get("catch_ext"))
             or any(st["out"][0] == "s" for d in prog["defs"].values() if d["kind"] != "nest" for st in d["script"])
-            or bool(prog.get("manual") and prog["manual"]["then"] != "exit"))
+            or bool(prog.get("manual") and (prog["manual"]["then"] != "exit" or prog["manual"].get("jump"))))
 
 
 def to_coq(case, obs):
@@ -1036,6 +1045,9 @@ def gen_manual(rng, n, thens=("exit", "do", "do")):
         p["manual"] = {"recurs": rng.randint(0, 4), "then": rng.choice(list(thens))}
         if p["manual"]["then"] == "exit" and rng.random() < 0.4:
             p["manual"]["own_deeds"] = True
+        if p["manual"]["then"] == "exit" and p["manual"]["recurs"] >= 2 and rng.random() < 0.3:
+            # tick(tock=x) between two cycles: a one-off jump that leaves the scheduler's own tock alone (oracle only)
+            p["manual"]["jump"] = {"after": rng.randint(0, p["manual"]["recurs"] - 2), "tock": rng.choice([1.0, 2.5, 0.125, 4.0])}
         out.append(p)
     return out
 
@@ -1189,3 +1201,28 @@ def gen_sysexit(rng, n):
         del sc_[k + 1:]
         out.append(p)
     return out
+
+
+def jump_oracle(case, obs):
+    """Hand-driven runs with one tick(tock=J) between two cycles: the jump is one-off -- the scheduler keeps its own
+    tock, every other cycle still advances tyme by exactly one tock."""
+    m = case.get("manual") or {}
+    if not m.get("jump"):
+        return None
+    if fl(obs["tock_end"]) != case["tock"]:
+        return f"the scheduler's tock changed from {case['tock']} to {fl(obs['tock_end'])} (a tick(tock=...) jump is one-off)"
+    if obs["raised"] != "none":
+        return None
+    t, want = case["tyme"], []
+    for r in range(m["recurs"]):
+        want.append(t)
+        t = t + case["tock"]
+        if m["jump"]["after"] == r:
+            t = t + m["jump"]["tock"]
+    got = sorted({fl(h) for k, _, h in obs["trace"] if k == "Recur"})
+    bad = [x for x in got if x not in want]
+    if bad:
+        return f"doers recurred at tymes {bad}, the cycles of this run are at {want}"
+    if fl(obs["tyme"]) != t:
+        return f"final tyme {fl(obs['tyme'])}, the cycles and the jump give {t}"
+    return None
